@@ -419,7 +419,29 @@ class Rig:
         return json.dumps(pkt).replace('~', '\\u007e').encode('utf-8') + DELIM
 
     def inject(self, label, raw):
+        self.injected = getattr(self, 'injected', {})
+        self.injected[label] = self.injected.get(label, b'') + raw
         self.links[label].append(raw)
+
+    def unrequested_answers(self):
+        """Value packets written to a hostile peer H that answer no call H ever sent on that connection: [(label, id)].
+        (A result belongs to the connection its call arrived on; a process may hold several connections.)"""
+        out = []
+        for label, pkt, _n in self.wire:
+            if not label.endswith('>H') or not isinstance(pkt, dict) or 'name' in pkt or 'id' not in pkt:
+                continue
+            sent = getattr(self, 'injected', {}).get('H>' + label[:-2], b'')
+            ids = []
+            for raw in sent.split(DELIM):
+                try:
+                    x = json.loads(raw.decode('utf-8'))
+                except (ValueError, RecursionError):
+                    continue
+                if isinstance(x, dict) and 'name' in x:
+                    ids.append(json.dumps(x.get('id'), sort_keys=True))
+            if json.dumps(pkt['id'], sort_keys=True) not in ids:
+                out.append((label, pkt['id']))
+        return out
 
     def pump(self, sizes, burst, max_rounds=6000, idle_rounds=8):
         """Tick everybody, move bytes; until nothing moves for ``idle_rounds`` rounds. Returns False if the bound hit."""
